@@ -513,6 +513,9 @@ func (m *Machine) Draw(t *rapid.T, g *GenOpts) Action {
 	case "ethTx":
 		m.drawEth(t, g, &a)
 		return a
+	case "rawCall":
+		m.drawRawCall(t, g, &a)
+		return a
 	case "avsRegister", "avsUpdate", "avsDeregister", "avsOptIn", "avsOptOut", "avsBLS", "avsTask", "avsResult", "avsChallenge":
 		m.drawAvs(t, g, &a)
 		return a
